@@ -56,6 +56,18 @@ pub fn exec(rest: &str, out: &mut Out) -> (String, bool) {
             out.oracle((x == y) == (c == Ordering::Equal), "Equal exactly when equal", || format!("eq={} cmp={:?}", x == y, c));
             out.oracle(x.cmp(&x) == Ordering::Equal && x == x.clone() && h(&x) == h(&x.clone()), "reflexive; clones equal their originals and hash alike", || String::new());
             if x == y { out.oracle(h(&x) == h(&y), "equal values hash identically", || String::new()); }
+            // the provided methods an impl may override say the same thing as cmp / eq
+            out.oracle((x != y) == !(x == y) && (x < y) == (c == Ordering::Less) && (x <= y) == (c != Ordering::Greater) && (x > y) == (c == Ordering::Greater) && (x >= y) == (c != Ordering::Less)
+                && (&x).max(&y) == (if c == Ordering::Greater { &x } else { &y }) && (&x).min(&y) == (if c == Ordering::Greater { &y } else { &x }),
+                "ne, <, <=, >, >=, max, min agree with eq / cmp", || format!("cmp={:?} eq={}", c, x == y));
+            // entries carrying the two values under one key, and under two keys, compare as pairs
+            {
+                use json_syntax::object::{Entry, Key};
+                let (e1, e2): (Entry, Entry) = (Entry::new(Key::from("k"), x.clone()), Entry::new(Key::from("k"), y.clone()));
+                out.oracle(e1.cmp(&e2) == c && (e1 == e2) == (x == y) && e1.partial_cmp(&e2) == Some(c) && (e1 != e2) == (x != y) && (x != y || h(&e1) == h(&e2)), "Entry with equal keys compares / hashes like its values", || format!("{:?}", e1.cmp(&e2)));
+                let (f1, f2): (Entry, Entry) = (Entry::new(Key::from("a"), y.clone()), Entry::new(Key::from("b"), x.clone()));
+                out.oracle(f1.cmp(&f2) == Ordering::Less && f2.cmp(&f1) == Ordering::Greater && f1 != f2, "Entry order is decided by the key first", || String::new());
+            }
             // the same content through another construction route (heap-backed buffers, entry-by-entry objects)
             let xr = rebuilt(&x);
             out.oracle(xr == x && x == xr && xr.cmp(&x) == Ordering::Equal && h(&xr) == h(&x) && xr.clone() == xr && xr.clone() == x,
